@@ -475,6 +475,35 @@ def runtime_half(quick):
                         src.append("}\n")
                 cases.append(dict(id=cid, struct=st["name"], path=[m[0] for m in path], schedule=sched["name"], expect_err=expect_err))
                 body.append("".join(src))
+    # value lists that are not materialised: an exact-size iterator with (almost) usize::MAX items onto a stack
+    # that already holds one value (present + supplied does not fit in usize), and onto an empty one with a small
+    # maximum; long materialised lists around 256 and 65536 values against maxima one below / equal
+    for st in STRUCTS:
+        for s_ in st["stacks"]:
+            vm = f"with_{s_['bname']}_values"
+            for variant in ("huge-after-one", "huge-on-empty", "long-fits", "long-one-too-many"):
+                for n_long in ((256, 65536) if variant.startswith("long") else (0,)):
+                    cid = len(cases)
+                    src = [f"fn case{cid}() {{\n"]
+                    if variant == "huge-after-one":
+                        src.append(f"    let b = {st['name']}::builder().with_max_stack_size(5);\n")
+                        src.append(f"    let b = match b.{vm}(Vec::<{s_['elem']}>::from([{s_['lit'](1)}])) {{ Ok(b) => b, Err(_) => {{ bad({cid}, \"one value into a stack of max 5 was rejected\"); return; }} }};\n")
+                        src.append(f"    let r = b.{vm}((0..usize::MAX).map(|_| {s_['lit'](2)}));\n")
+                        src.append(f"    if !matches!(r, Err(push::push_vm::stack::StackError::Overflow {{ .. }})) {{ bad({cid}, \"expected an overflow error\"); }}\n}}\n")
+                    elif variant == "huge-on-empty":
+                        src.append(f"    let b = {st['name']}::builder().with_max_stack_size(5);\n")
+                        src.append(f"    let r = b.{vm}((0..usize::MAX - 3).map(|_| {s_['lit'](2)}));\n")
+                        src.append(f"    if !matches!(r, Err(push::push_vm::stack::StackError::Overflow {{ .. }})) {{ bad({cid}, \"expected an overflow error\"); }}\n}}\n")
+                    else:
+                        mx = n_long if variant == "long-fits" else n_long - 1
+                        src.append(f"    let b = {st['name']}::builder().with_max_stack_size({mx});\n")
+                        src.append(f"    let r = b.{vm}((0..{n_long}usize).map(|_| {s_['lit'](2)}).collect::<Vec<{s_['elem']}>>());\n")
+                        if variant == "long-fits":
+                            src.append(f"    if r.is_err() {{ bad({cid}, \"{n_long} values into a stack of max {mx} were rejected\"); }}\n}}\n")
+                        else:
+                            src.append(f"    if !matches!(r, Err(push::push_vm::stack::StackError::Overflow {{ .. }})) {{ bad({cid}, \"expected an overflow error\"); }}\n}}\n")
+                    cases.append(dict(id=cid, struct=st["name"], path=["with_max_stack_size", vm] + ([vm] if variant == "huge-after-one" else []), schedule=f"{variant}{' ' + str(n_long) if n_long else ''}", expect_err=None if variant == "long-fits" else variant))
+                    body.append("".join(src))
     body.append("fn guarded(id: usize, f: fn()) { if std::panic::catch_unwind(f).is_err() { bad(id, \"panicked\"); } }\n")
     body.append("fn main() {\n    std::panic::set_hook(Box::new(|_| {}));\n" + "".join(f"    guarded({c['id']}, case{c['id']});\n" for c in cases) + f"    println!(\"DONE {len(cases)}\");\n}}\n")
     open(os.path.join(crate, "src", "main.rs"), "w").write("".join(body))
